@@ -211,10 +211,16 @@ def parse_vspec(path):
                 cur_loop = None
             elif d == "@hint":
                 m = re.match(r"(after|before)\s+`(.*)`\s*$", rest)
-                if not m:
+                m2 = re.match(r"(loopstart|loopend|bodystart)\s*(\d*)\s*$", rest)
+                if not m and not m2:
                     raise RsxError(f"{path}:{i+1}: bad @hint")
                 b, i = block(i + 1)
-                cur_fn.hints.append((m.group(1), m.group(2).replace("¶", "\n"), "\n".join(b)))
+                if m2:
+                    # structural position (start / end of the body of the function's n-th loop): does
+                    # not depend on the text of any statement, so editing a condition cannot lose it
+                    cur_fn.hints.append((m2.group(1), int(m2.group(2) or 0), "\n".join(b)))
+                else:
+                    cur_fn.hints.append((m.group(1), m.group(2).replace("¶", "\n"), "\n".join(b)))
                 continue
             elif d == "@retype":
                 m = re.match(r"`(.*)`\s*=>\s*`(.*)`\s*$", rest)
@@ -500,6 +506,9 @@ def build_item(u, spec, twin, gen):
         rules.r14_wild_params(text, m, red, kept_fns)
     if "R7" in spec.extra_rules:
         rules.r7_format(text, m, red)
+    renamed_self = rules.r17_mut_self(text, m, red, kept_fns) if "R17" in spec.extra_rules else []
+    if "R18" in spec.extra_rules:
+        rules.r18_for_in_mut(text, m, red, kept_fns, renamed_self)
     # R8: default bodies of trait methods are dropped (the methods become required): a recording
     # visitor overrides all of them; the traversal code is untouched.
     if "R8" in spec.extra_rules:
@@ -618,6 +627,20 @@ def build_item(u, spec, twin, gen):
                 ltxt = "\n" + format_contract(lspec["clauses"], False, "            ") + "\n        "
                 ed.add(brace_off, brace_off, ltxt, "S-loop", prio=2)
             for (where, anchor, htext) in fs.hints:
+                if where == "bodystart":
+                    ed.add(f.body_s + 1, f.body_s + 1, "\n" + htext + "\n", "S-hint", prio=3)
+                    continue
+                if where in ("loopstart", "loopend"):
+                    if anchor > len(lps):
+                        raise RsxError(f"{spec.header}::{f.name}: loop #{anchor} not found for @hint (function has {len(lps)} loops)")
+                    _kw_tok, brace_off, _kw = lps[anchor - 1]
+                    if where == "loopstart":
+                        ed.add(brace_off + 1, brace_off + 1, "\n" + htext + "\n", "S-hint", prio=3)
+                    else:
+                        bt = next(k for k, t in enumerate(itoks) if t.s == brace_off)
+                        cl = itoks[rsx.match_close(itoks, bt)].s
+                        ed.add(cl, cl, htext + "\n", "S-hint", prio=-3)
+                    continue
                 body = text[f.body_s:f.body_e]
                 cnt = body.count(anchor)
                 if cnt != 1:
